@@ -363,10 +363,20 @@ pub fn run_seed(cfg: &BatchCfg, idx: u64) -> u64 {
 
 /// Run a batch, in this process or (for engines that ask for it) sharded over worker processes.
 pub fn run_batch(engine: &dyn Engine, cfg: &BatchCfg) -> Aggregate {
-    if engine.shard_over_processes() && cfg.shard.1 == 1 && cfg.threads > 1 && cfg.runs >= 64 {
+    // every batch runs in worker processes (one single-threaded worker per core): engines that create OS threads per
+    // run need it for speed, and all of them need it so that code under test which ABORTS the process (a panic while
+    // unwinding, a refused allocation, a blown stack) takes down a worker and not the check - see `progress_path`
+    let _ = engine.shard_over_processes();
+    if cfg.shard.1 == 1 && cfg.threads > 1 && cfg.runs >= 64 {
         return run_batch_sharded(engine, cfg);
     }
     run_batch_local(engine, cfg)
+}
+
+/// Where worker `k` of a batch leaves the index of the run it is executing (8 bytes, rewritten before every run, never
+/// synced: the page cache outlives the process). If the worker dies, this is the run that killed it.
+pub fn progress_path(cfg: &BatchCfg, engine: &dyn Engine, k: u64) -> PathBuf {
+    cfg.verif_dir.join("replays").join(format!(".progress-{}-{}-{}-{k}", engine.name(), cfg.property, cfg.seed))
 }
 
 fn run_batch_sharded(engine: &dyn Engine, cfg: &BatchCfg) -> Aggregate {
@@ -402,8 +412,33 @@ fn run_batch_sharded(engine: &dyn Engine, cfg: &BatchCfg) -> Aggregate {
                 total.merge(a);
                 total.stopped_early |= stopped;
             }
-            None => total.harness_errors.push((k as u64, format!("worker process {k} produced no result (status {:?})", out.status))),
+            None => {
+                use std::os::unix::process::ExitStatusExt;
+                let idx = std::fs::read(progress_path(cfg, engine, k as u64))
+                    .ok()
+                    .filter(|b| b.len() == 8)
+                    .map(|b| u64::from_le_bytes(b.try_into().unwrap()));
+                match (out.status.signal(), idx) {
+                    // killed by a signal in the middle of a run: the code under test aborted the process
+                    (Some(sig), Some(idx)) => total.failures.push((
+                        idx,
+                        Violation {
+                            property: intern(cfg.property),
+                            rule: "process_aborted",
+                            detail: format!(
+                                "the process executing run #{idx} of {} was killed by signal {sig} (abort: a panic while unwinding, a refused allocation or a blown stack in the code under test); nothing but the run's seed survives such a death",
+                                engine.name()
+                            ),
+                        },
+                        Vec::new(),
+                    )),
+                    _ => total.harness_errors.push((k as u64, format!("worker process {k} produced no result (status {:?})", out.status))),
+                }
+            }
         }
+    }
+    for k in 0..n {
+        let _ = std::fs::remove_file(progress_path(cfg, engine, k));
     }
     total.failures.sort_by(|a, b| a.0.cmp(&b.0));
     total.harness_errors.sort();
@@ -420,6 +455,14 @@ pub fn run_batch_local(engine: &dyn Engine, cfg: &BatchCfg) -> Aggregate {
     let start = Instant::now();
     let failures_seen = AtomicU64::new(0);
     let known = load_known_findings(&cfg.verif_dir.join("known_findings.json"));
+    // a worker process (one thread, one shard) leaves a note of the run it is in, for its parent to find if it dies
+    let progress: Option<std::fs::File> = if cfg.shard.1 > 1 && cfg.threads <= 1 {
+        let path = progress_path(cfg, engine, cfg.shard.0);
+        std::fs::create_dir_all(path.parent().unwrap()).ok();
+        std::fs::File::create(path).ok()
+    } else {
+        None
+    };
 
     std::thread::scope(|s| {
         for _ in 0..cfg.threads.max(1) {
@@ -437,6 +480,10 @@ pub fn run_batch_local(engine: &dyn Engine, cfg: &BatchCfg) -> Aggregate {
                         stop.store(true, Ordering::Relaxed);
                         agg.stopped_early = true;
                         break;
+                    }
+                    if let Some(f) = &progress {
+                        use std::os::unix::fs::FileExt;
+                        let _ = f.write_at(&idx.to_le_bytes(), 0);
                     }
                     let mut ch = Choices::from_seed(run_seed(cfg, idx));
                     let ctx = RunCtx {
@@ -666,6 +713,9 @@ pub struct ReplayDoc {
     pub thorough: bool,
     pub choices: Vec<u32>,
     pub trace_hash: String,
+    /// the run killed its process: it is named by its seed and must be replayed in a child process
+    pub aborts_process: bool,
+    pub run_seed: u64,
 }
 
 pub fn read_replay(path: &Path) -> Result<ReplayDoc, String> {
@@ -682,6 +732,8 @@ pub fn read_replay(path: &Path) -> Result<ReplayDoc, String> {
             .map(|a| a.iter().map(|x| x.as_u64().unwrap_or(0) as u32).collect())
             .unwrap_or_default(),
         trace_hash: v["trace_hash"].as_str().unwrap_or("").to_string(),
+        aborts_process: v["aborts_process"].as_bool().unwrap_or(false),
+        run_seed: v["run_seed"].as_u64().unwrap_or(0),
     })
 }
 
@@ -750,6 +802,36 @@ pub fn report(
                         thorough: part.cfg.thorough,
                         want_trace: false,
                     };
+                    if v.rule == "process_aborted" {
+                        // cannot be re-executed in this process (it would die too) and has no recorded choices: the
+                        // replay file names the run by its seed, and `replay` executes it in a child process
+                        let dir = verif_dir.join("replays");
+                        std::fs::create_dir_all(&dir).ok();
+                        let path = dir.join(format!("{}-{}-{}-{:06}.json", v.property, v.rule, part.cfg.seed, idx));
+                        let doc = json!({
+                            "property": v.property,
+                            "rule": v.rule,
+                            "detail": v.detail,
+                            "engine": part.engine.name(),
+                            "label": part.cfg.label,
+                            "thorough": part.cfg.thorough,
+                            "verif_seed": part.cfg.seed,
+                            "run_index": idx,
+                            "run_seed": run_seed(&part.cfg, *idx),
+                            "aborts_process": true,
+                            "choices": [],
+                            "trace_hash": "0000000000000000",
+                            "history": [],
+                            "replay": format!("./check --replay {}", path.display()),
+                        });
+                        std::fs::write(&path, serde_json::to_string_pretty(&doc).unwrap()).expect("write replay");
+                        nviol += 1;
+                        exit_code = 1;
+                        println!("violation: property={} rule={} detail={}", v.property, v.rule, v.detail);
+                        println!("VIOLATION property={} replay={}", v.property, path.display());
+                        reported.push(json!({"known_finding": false, "rule": v.rule, "detail": v.detail, "run": idx, "replay": path.display().to_string()}));
+                        continue;
+                    }
                     let min = if reproduces(part.engine, rec, &ctx, v) {
                         minimise(part.engine, rec, &ctx, v, 3000)
                     } else {
